@@ -2,7 +2,9 @@
    Part 1: string facts and injectivity of the two name derivations.
    Part 2: the machine, for ANY derivation [nm] that is injective on a domain [Pi] of identities:
            invariant, no crash, error for abilities not on offer, one reference per pair and lifetime,
-           one creation per lifetime, distinct pairs never share a name or an instance. *)
+           one creation per lifetime, distinct pairs never share a name or an instance; the window between the
+           beginning ([Begin]) and the end ([Stop]) of a child's termination: nothing the manager sees changes, the
+           terminating child keeps its slot, lookups inside the window get the old reference and create nothing. *)
 From Coq Require Import String Ascii DecimalString DecimalNat.
 From MV Require Import Lib.ListX C13.DrillModel.
 Open Scope list_scope.
@@ -122,7 +124,7 @@ Proof. induction l as [|h t IH]; cbn; [destruct (f x); auto|]. rewrite IH. destr
 
 Lemma op_eq_lookup (o : op) i a : {o = Lookup i a} + {o <> Lookup i a}.
 Proof.
-  destruct o as [i' a' | i' a']; [|right; discriminate].
+  destruct o as [i' a' | i' a' | i' a']; [|right; discriminate|right; discriminate].
   destruct (string_dec i' i), (string_dec a' a); subst; auto; right; congruence.
 Qed.
 
@@ -144,7 +146,8 @@ Section Machine.
     inv_mem : forall k c, In (k, c) (members s) ->
         Pi (fst k) /\ str_mem (snd k) offered = true /\ valid_name (fst k) = true /\ valid_name (snd k) = true /\
         cname c = nm (fst k) (snd k) /\ In c (registry s) /\ nth_error (created s) (cinst c) = Some k;
-    inv_reg : forall c, In c (registry s) -> exists k, In (k, c) (members s)
+    inv_reg : forall c, In c (registry s) -> exists k, In (k, c) (members s);
+    inv_dying : forall c, In c (dying s) -> In c (registry s)
   }.
 
   Lemma inv_init : Inv init.
@@ -179,7 +182,7 @@ Section Machine.
      lookup s i a =
        ({| members := ((i, a), mkchild (nm i a) (length (created s))) :: members s;
            registry := mkchild (nm i a) (length (created s)) :: registry s;
-           created := created s ++ [(i, a)] |}, ORef (mkchild (nm i a) (length (created s))))).
+           created := created s ++ [(i, a)]; dying := dying s |}, ORef (mkchild (nm i a) (length (created s))))).
   Proof.
     intros HI HP. unfold DrillModel.lookup.
     destruct (str_mem a offered) eqn:Ho; cbn [negb]; [|left; auto].
@@ -196,15 +199,27 @@ Section Machine.
        stop s i a =
        ({| members := filter (fun e => negb (String.eqb (cname (snd e)) (cname c))) (members s);
            registry := filter (fun c' => negb (String.eqb (cname c') (cname c))) (registry s);
-           created := created s |}, OStop true)).
+           created := created s;
+           dying := filter (fun c' => negb (String.eqb (cname c') (cname c))) (dying s) |}, OStop true)).
   Proof. unfold stop. destruct (find_member (i, a) (members s)); eauto. Qed.
+
+  (* the beginning of a termination changes nothing but the set of terminating children *)
+  Lemma begin_cases s i a :
+    begin s i a = (s, OBegin false) \/
+    (exists c, find_member (i, a) (members s) = Some c /\
+       begin s i a =
+       ({| members := members s; registry := registry s; created := created s; dying := c :: dying s |}, OBegin true)).
+  Proof.
+    unfold begin. destruct (find_member (i, a) (members s)) as [c|]; auto.
+    destruct (name_taken (cname c) (dying s)); eauto.
+  Qed.
 
   Lemma step_inv s o : Inv s -> Pi (op_identity o) -> Inv (fst (step s o)) /\ snd (step s o) <> OCrash.
   Proof.
-    intros HI HP. destruct o as [i a | i a]; cbn [DrillModel.step op_identity] in *.
+    intros HI HP. destruct o as [i a | i a | i a]; cbn [DrillModel.step op_identity] in *.
     - destruct (lookup_cases s i a HI HP) as [[E _] | [[c [E _]] | (Hf & Ho & Hv1 & Hv2 & E)]]; rewrite E; cbn [fst snd];
         try (split; [assumption | discriminate]).
-      split; [|discriminate]. split; cbn [members registry created].
+      split; [|discriminate]. split; cbn [members registry created dying].
       + intros k c [Hin | Hin].
         * injection Hin as <- <-. cbn [fst snd cname cinst]. repeat split; auto; try (now left).
           rewrite nth_error_app2, Nat.sub_diag by lia. reflexivity.
@@ -213,13 +228,21 @@ Section Machine.
           rewrite nth_error_app1; auto. apply nth_error_Some. congruence.
       + intros c [<- | Hin]; [eexists; left; reflexivity|].
         destruct (inv_reg _ HI _ Hin) as [k Hk]. exists k. right; auto.
+      + intros c Hin. right. apply (inv_dying _ HI); auto.
+    - destruct (begin_cases s i a) as [E | [c [Hf E]]]; rewrite E; cbn [fst snd]; (split; [|discriminate]); auto.
+      split; cbn [members registry created dying].
+      + apply (inv_mem _ HI).
+      + apply (inv_reg _ HI).
+      + intros c' [<- | Hin]; [|apply (inv_dying _ HI); auto].
+        apply find_member_In in Hf. destruct (inv_mem _ HI _ _ Hf) as (_ & _ & _ & _ & _ & R & _). exact R.
     - destruct (stop_cases s i a) as [[_ E] | [c [Hf E]]]; rewrite E; cbn [fst snd]; (split; [|discriminate]); auto.
-      split; cbn [members registry created].
+      split; cbn [members registry created dying].
       + intros k c' Hin. apply filter_In in Hin as [Hin Hne]. cbn [snd] in Hne.
         destruct (inv_mem _ HI _ _ Hin) as (P & O & V1 & V2 & N & R & C). repeat split; auto.
         apply filter_In. auto.
       + intros c' Hin. apply filter_In in Hin as [Hin Hne].
         destruct (inv_reg _ HI _ Hin) as [k Hk]. exists k. apply filter_In. auto.
+      + intros c' Hin. apply filter_In in Hin as [Hin Hne]. apply filter_In. split; auto. apply (inv_dying _ HI); auto.
   Qed.
 
   Lemma ops_dom_cons o t : ops_dom (o :: t) -> Pi (op_identity o) /\ ops_dom t.
@@ -271,12 +294,13 @@ Section Machine.
   (* ---------------- created only grows *)
   Lemma step_created s o : exists l, created (fst (step s o)) = created s ++ l.
   Proof.
-    destruct o as [i a | i a]; cbn [DrillModel.step].
+    destruct o as [i a | i a | i a]; cbn [DrillModel.step].
     - unfold DrillModel.lookup.
       destruct (negb (str_mem a offered)); [exists []; cbn; now rewrite app_nil_r|].
       destruct (negb (valid_name i && valid_name a)); [exists []; cbn; now rewrite app_nil_r|].
       destruct (find_member (i, a) (members s)); [exists []; cbn; now rewrite app_nil_r|].
       destruct (name_taken (nm i a) (registry s)); cbn; [exists []; now rewrite app_nil_r | eauto].
+    - destruct (begin_cases s i a) as [E | [c [_ E]]]; rewrite E; exists []; cbn; now rewrite app_nil_r.
     - unfold stop. destruct (find_member (i, a) (members s)); exists []; cbn; now rewrite app_nil_r.
   Qed.
 
@@ -335,11 +359,12 @@ Section Machine.
     Inv s -> Pi (op_identity o) -> o <> Stop i a ->
     find_member (i, a) (members s) = Some c -> find_member (i, a) (members (fst (step s o))) = Some c.
   Proof.
-    intros HI HP Hne Hf. destruct o as [i' a' | i' a']; cbn [DrillModel.step op_identity] in *.
+    intros HI HP Hne Hf. destruct o as [i' a' | i' a' | i' a']; cbn [DrillModel.step op_identity] in *.
     - destruct (lookup_cases s i' a' HI HP) as [[E _] | [[c' [E _]] | (Hf' & _ & _ & _ & E)]]; rewrite E; cbn [fst]; auto.
       cbn [members find_member].
       destruct (key_eqb (i, a) (i', a')) eqn:Ek; auto.
       apply key_eqb_eq in Ek. injection Ek as -> ->. congruence.
+    - destruct (begin_cases s i' a') as [E | [c' [_ E]]]; rewrite E; cbn [fst members]; auto.
     - destruct (stop_cases s i' a') as [[_ E] | [c' [Hf' E]]]; rewrite E; cbn [fst]; auto.
       cbn [members]. rewrite find_member_filter; auto.
       intros x Hx. cbn [snd]. apply negb_true_iff, String.eqb_neq. intros En.
@@ -403,6 +428,7 @@ Section Machine.
       + destruct (step_inv s (Lookup i a) HI HP) as [_ Hc]. cbn [DrillModel.step] in Hc. congruence.
       + exfalso. destruct (lookup_cases s i a HI HP) as [[E _] | [[c' [E _]] | (_ & _ & _ & _ & E)]]; rewrite E in Ex; discriminate.
       + exfalso. destruct (lookup_cases s i a HI HP) as [[E _] | [[c' [E _]] | (_ & _ & _ & _ & E)]]; rewrite E in Ex; discriminate.
+      + exfalso. destruct (lookup_cases s i a HI HP) as [[E _] | [[c' [E _]] | (_ & _ & _ & _ & E)]]; rewrite E in Ex; discriminate.
     - destruct (IH (fst (step s o)) i a HI1 HD HNt) as [r Hr]. exists r. intros x Hin.
       unfold trace_from in Hin. rewrite run_cons in Hin. cbn [snd combine] in Hin.
       destruct Hin as [E | Hin]; [injection E as -> _; congruence | auto].
@@ -417,13 +443,16 @@ Section Machine.
     count_created k (fst (step s o)) + alive k s <=
     count_created k s + alive k (fst (step s o)) + (if is_stop_of k o then 1 else 0).
   Proof.
-    intros HI HP. destruct o as [i a | i a]; cbn [DrillModel.step op_identity is_stop_of] in *.
+    intros HI HP. destruct o as [i a | i a | i a]; cbn [DrillModel.step op_identity is_stop_of] in *.
     - destruct (lookup_cases s i a HI HP) as [[E _] | [[c' [E _]] | (Hf & _ & _ & _ & E)]]; rewrite E; cbn [fst]; try lia.
       unfold count_created, alive. cbn [created members find_member].
       rewrite filter_app_single, app_length.
       destruct (key_eqb k (i, a)) eqn:Ek.
       + apply key_eqb_eq in Ek. subst k. rewrite Hf. cbn [length]. lia.
       + cbn [length]. lia.
+    - (* the beginning of a termination pays for nothing: the table and the log are unchanged *)
+      destruct (begin_cases s i a) as [E | [c' [_ E]]]; rewrite E; cbn [fst]; [lia|].
+      unfold count_created, alive. cbn [created members]. lia.
     - destruct (stop_cases s i a) as [[_ E] | [c [Hf E]]]; rewrite E; cbn [fst]; [destruct (key_eqb k (i, a)); lia|].
       unfold count_created, alive. cbn [created members].
       destruct (key_eqb k (i, a)) eqn:Ek.
@@ -551,6 +580,53 @@ Section Machine.
     intros HD Hin. destruct (run_inv ops init inv_init HD) as [HI _].
     destruct (inv_mem _ HI _ _ Hin) as (_ & _ & _ & _ & N & R & C). auto.
   Qed.
+
+  (* ================== the window between the beginning and the end of a termination ================== *)
+
+  (* the beginning of a termination is invisible to the manager: its table, the taken names and the creation log are
+     those of the history without it — in ANY state, invariant or not *)
+  Lemma begin_frame s i a :
+    members (fst (begin s i a)) = members s /\ registry (fst (begin s i a)) = registry s /\
+    created (fst (begin s i a)) = created s.
+  Proof. destruct (begin_cases s i a) as [E | [c [_ E]]]; rewrite E; cbn; auto. Qed.
+
+  Theorem begin_invisible ops i a :
+    members (final nm offered (ops ++ [Begin i a])) = members (final nm offered ops) /\
+    registry (final nm offered (ops ++ [Begin i a])) = registry (final nm offered ops) /\
+    created (final nm offered (ops ++ [Begin i a])) = created (final nm offered ops).
+  Proof.
+    unfold final. rewrite run_app. cbn [fst]. rewrite run_cons. cbn [fst DrillModel.step DrillModel.run].
+    apply begin_frame.
+  Qed.
+
+  (* a terminating child keeps its slot: it is still listed by the manager under its own pair and its name is taken *)
+  Theorem dying_keeps_slot ops c :
+    ops_dom ops -> In c (dying (final nm offered ops)) ->
+    In c (registry (final nm offered ops)) /\
+    exists k, In (k, c) (members (final nm offered ops)) /\ cname c = nm (fst k) (snd k) /\
+              nth_error (created (final nm offered ops)) (cinst c) = Some k.
+  Proof.
+    intros HD Hin. destruct (run_inv ops init inv_init HD) as [HI _].
+    pose proof (inv_dying _ HI _ Hin) as R. split; auto.
+    destruct (inv_reg _ HI _ R) as [k Hk]. exists k.
+    destruct (inv_mem _ HI _ _ Hk) as (_ & _ & _ & _ & N & _ & C). auto.
+  Qed.
+
+  (* a lookup of the pair inside the window — after its actor began to terminate, before it has terminated — is answered
+     with the reference handed out before, and creates nothing *)
+  Theorem lookup_while_terminating pre mid1 mid2 post i a c :
+    ops_dom (pre ++ Lookup i a :: (mid1 ++ Begin i a :: mid2) ++ Lookup i a :: post) ->
+    ~ In (Stop i a) mid1 -> ~ In (Stop i a) mid2 ->
+    nth_error (outs nm offered (pre ++ Lookup i a :: (mid1 ++ Begin i a :: mid2) ++ Lookup i a :: post)) (length pre) = Some (ORef c) ->
+    nth_error (outs nm offered (pre ++ Lookup i a :: (mid1 ++ Begin i a :: mid2) ++ Lookup i a :: post))
+              (length pre + S (length (mid1 ++ Begin i a :: mid2))) = Some (ORef c)
+    /\ created (final nm offered (pre ++ Lookup i a :: (mid1 ++ Begin i a :: mid2) ++ [Lookup i a])) =
+       created (final nm offered (pre ++ Lookup i a :: (mid1 ++ Begin i a :: mid2))).
+  Proof.
+    intros HD H1 H2. apply idempotent; auto.
+    intros H. apply in_app_or in H as [H | [H | H]]; [auto | discriminate | auto].
+  Qed.
+
 End Machine.
 
 (* ------------------------------------------------------------------ instances *)
